@@ -16,7 +16,7 @@ EXPLANATION = ('Theorems about the Lean model of salsa\'s fixpoint iteration sch
                'chain (`c12_chain`, by a simulation between consecutive DFS passes), the converged assignment is a fixpoint and the least one. '
                'The model abstracts salsa\'s cross-revision reuse of finalised cycle memos (a write drops all memos): it is the from-scratch '
                'semantics of the iteration scheme. Tied to salsa by comparing every request of generated cyclic programs x histories (create / '
-               'remove / reshape cycles, finalised acyclic feeders) with the Lean model AND with an independent Kleene-iteration oracle.')
+               'remove / reshape cycles, finalised acyclic feeders) with the Lean model AND with an independent Kleene-iteration oracle. Since the second session: (a) the body language has VALUE-controlled gates (cycles that form and grow while iterating): soundness is proved with gates (`c12_full_gated`: lfp, or cycle / propagated / too-many-iterations), termination and the chain statement keep `NoGate` (`c12_chain_fails_with_gates` shows the chain is false with gates, in model and code alike); (b) the revision-aware model `CycleRev` follows the code function by function across revisions and is compared BYTE FOR BYTE (values, panic classes, X/V/C event sequences of every request of every revision) with salsa; its `decide` theorems `c12rev_history_dependence_witness(_recorded)` are the model-level twins of known finding kf2, `c12rev_stale_final_memo_repaired_witness` documents repair b4c96f4, `c12rev_exact_if_closed` certifies first-revision answers as least fixpoints per run.')
 ASSUMPTIONS = ['conditionally formed cycles whose shape depends on VALUES (gates): both Lean models have the gate and are compared with salsa; the least-fixpoint theorems cover gated programs (`c12_lfp`, `c12_full_gated`, `c12rev_exact_if_closed`), but termination (`c12_terminates`), the ascending chain (`c12_chain`) and `c12_pass_total` are proved for gate-free programs only: with gates the chain is FALSE (`c12_chain_fails_with_gates`: a query that becomes a new nested head restarts from bottom and values drop between passes, in salsa as in the model) and termination is open (never observed to fail)',
                'cross-revision reuse of finalised cycle results is covered by the oracle only (known finding kf2 lives exactly there; its key is '
                'recognised by mechanism: a node that was a cycle member at its last execution and was only re-validated since)',
